@@ -48,16 +48,15 @@ type pairState struct {
 	firstSeen time.Duration
 	ev        map[string]bool
 	evLast    map[string]time.Time // last refresh instant seen for the route
-	lastAge   time.Duration
 }
 
 type advRec struct {
-	at    time.Duration
-	poll  int
-	link  int
-	to    int // receiving node
-	from  int // sending identity (node index)
-	keys  []string
+	at   time.Duration
+	poll int
+	link int
+	to   int // receiving node
+	from int // sending identity (node index)
+	keys []string
 }
 
 type monitor struct {
@@ -74,17 +73,17 @@ type monitor struct {
 	retired  map[[2]int]map[int]bool
 	rawSends map[string]int // post-handshake frames an agent wrote on a raw peer's link
 
-	recent    []advRec                 // announcements of the current and previous poll window
-	withdraws map[int]int              // receiver -> withdraw frames seen
+	recent    []advRec    // announcements of the current and previous poll window
+	withdraws map[int]int // receiver -> withdraw frames seen
 
-	subs    []chan routing.RouteChange
-	pollN   int
+	subs       []chan routing.RouteChange
+	pollN      int
 	t0         time.Time
 	lastPollAt time.Time
-	period  time.Duration
-	stop    bool
-	stopped bool
-	doneQ   simrt.WaitQ
+	period     time.Duration
+	stop       bool
+	stopped    bool
+	doneQ      simrt.WaitQ
 
 	markerSkip map[string]bool
 }
@@ -332,7 +331,6 @@ func (mon *monitor) poll() {
 					simrt.Probe("c32_registration_moved_to_new_connection")
 				}
 				st.conn, st.link, st.firstSeen, st.ev, st.evLast = c, linkOf(c), now, map[string]bool{}, map[string]time.Time{}
-				st.lastAge = 0
 			}
 			if c == nil {
 				continue
@@ -343,8 +341,6 @@ func (mon *monitor) poll() {
 			if !open {
 				simrt.Probe("c32_closed_connection_still_registered_at_poll")
 			}
-			// keepalive teardown probe support
-			st.lastAge = time.Since(c.LastActivity())
 			present := map[string]RouteView{}
 			for _, r := range views {
 				if r.NextHop == pid {
